@@ -32,6 +32,8 @@ func runC15(c *core.Ctx) {
 	h.shutdownOrder("C15.5 shutdown")
 	c.Clause("C15.6 panic conversion routes through recoverErr")
 	h.panicConversion("C15.6 panic-conversion")
+	c.Clause("C15.7 blocking channel operations of goroutines outside a select with a stop/timer case are the frozen, individually justified set (E7b)")
+	h.blockingOps("C15.7 blocking-ops")
 }
 
 type guardSpec struct{ field, mu, reason string }
